@@ -5,6 +5,7 @@ FB == [f \in {"f1", "f-2", "f_3"} |->
          IF f = "f1" THEN <<C("z")>> ELSE IF f = "f-2" THEN <<C("nz")>> ELSE <<C("nz"), C("z")>>]
 SB == [s \in {"s1", "s2"} |->
          IF s = "s1" THEN <<C("nz")>> ELSE <<C("z"), [k |-> "exit", n |-> 4], C("z")>>]
+FP == { <<"z","z","z">>, <<"nz","z","z">>, <<"z","nz","z">>, <<"z","z","nz">> }
 NoLegacy == {}
 AllLegacy == {"funcstatus0", "sete_local"}
 Case == [prog |-> prog, ev |-> Ref.ev, status |-> Ref.status, n |-> Ref.n]
